@@ -43,6 +43,12 @@ class C18(Spec):
                 continue
             rs.append(dict(env={}, args=("all" if k == 1 else "multi" if k in (3, 16) else "roots",),
                            prefix=("taskset", "-c", "0-%d" % (k - 1) if k > 1 else "0"), ncpu=k))
+        # the real proof path of a node (ProcessBlock -> stored block + para-tx table -> ProcQueryTxMsg)
+        from .. import core
+        nb, log = core.go_build("h_c18node")
+        if nb is None:
+            raise RuntimeError("h_c18node does not build against the working tree: " + log[-1200:])
+        rs.append(dict(env={}, args=(), binary=nb, ncpu=0))
         return rs
 
     def post(self, trace, run):
